@@ -11,6 +11,20 @@ warnings.filterwarnings("ignore")
 logging.disable(logging.WARNING)
 
 
+def generic_replay(mod, pid, path):
+    """re-decides the obligation a replay file belongs to on the current tree and replays the solver's
+    counterexample on the real code again (exit 1 if it still reproduces)"""
+    import json
+    with open(path) as f:
+        r = json.load(f)
+    print("replay file:", path)
+    print("  what     :", r.get("what"))
+    print("  recorded :", json.dumps(r.get("replay", {}))[:800])
+    os.environ["VERIF_ONLY"] = r.get("signature") or r.get("what", "")
+    os.environ.setdefault("VERIF_EVIDENCE_DIR", os.path.join(os.path.dirname(os.path.abspath(path)), "replay-evidence"))
+    return int(mod.main())
+
+
 def main():
     ap = argparse.ArgumentParser()
     ap.add_argument("pid")
@@ -32,7 +46,9 @@ def main():
         return 2
     try:
         if a.replay:
-            return int(mod.replay(a.replay))
+            if hasattr(mod, "replay"):
+                return int(mod.replay(a.replay))
+            return generic_replay(mod, pid, a.replay)
         return int(mod.main())
     except Exception:
         print(f"HARNESS-ERROR {pid}: unexpected exception in the check itself")
